@@ -24,7 +24,8 @@ def rules(ctx, tier):
         r.bad("txn-type", None, "transaction type not found")
     else:
         borrow, consume, ctor = txn_methods(ctx, txn)
-        writers = [b for b in borrow if any(e.kind == "FS_WRITE" and e.site.body.path == b.path for e in ctx.fx.effects)]
+        wkeys = set(e.site.key() for e in ctx.fx.effects if e.kind == "FS_WRITE")
+        writers = [b for b in borrow if any(s.key() in wkeys for s in ctx.flat(b).sites(("call",)))]
         r.check(len(writers) == 1, "write-method", None, "write method: %s" % ", ".join(b.path for b in writers),
                 "expected one borrowing method that writes the staging file, found %d" % len(writers))
         for b in writers:
@@ -70,54 +71,74 @@ def rules(ctx, tier):
     return out
 
 
-def one_datum(ctx, r, must, b, txn):
+def one_datum(ctx, r, must, b0, txn):
+    """Judged on the flat view of the write method: counter, hasher and buffered writer may live in a private struct of
+    the transaction whose `append` does the three steps."""
     prog = ctx.prog
+    from .c13 import txn_parts
+    parts = txn_parts(ctx, txn)
+    size_f, hasher_f = parts["size"], parts["hasher"]
+    b = ctx.flat(b0)
     sl = Slicer(ctx.world, b)
-    fields = prog.adts[txn]["variants"][0]["fields"]
-    size_f = [f["name"] for f in fields if prog.ty_str(f["ty"]) == "u64"]
-    hasher_f = [f["name"] for f in fields if "blake3::Hasher" in prog.ty_str(f["ty"])]
+    g = ctx.world.vfg
     # data parameter: the &[u8] parameter
     data_params = [i for i in range(1, b.argc + 1) if "[u8]" in prog.ty_str(b.locals[i])]
     if len(data_params) != 1 or len(size_f) != 1 or len(hasher_f) != 1:
-        r.bad("shape", b, "cannot identify data parameter / size / hasher of %s" % b.path)
+        r.bad("shape", b0, "cannot identify data parameter / size / hasher of %s" % b0.path)
         return
     dp = data_params[0]
     data_leaf = lambda lv: bool(lv) and all(l[0] == "param" and l[1] == dp and not l[2] for l in lv)
-    # (a) size += data.len()
-    ws = [w for w in ctx.world.field_writes if w.body.path == b.path and w.field == ("F", txn, size_f[0])]
+    size_name = size_f[0][2]
+
+    def is_size_leaf(z):
+        return z[0] == "param" and z[2] and z[2][-1] == size_name
+
+    # (a) size += data.len(): writes of the counter field in the view
+    ws = []
+    for bb in b.normal_blocks():
+        for st in b.stmts(bb):
+            if st["k"] != "assign" or not st["lhs"]["p"]:
+                continue
+            lhs = st["lhs"]
+            root = lhs if any(isinstance(e, dict) and "f" in e for e in lhs["p"]) else \
+                ctx.world._root_place(b, {"l": lhs["l"], "p": []})
+            if g.node_of_place(b, root) == size_f[0]:
+                ws.append((bb, st))
     okc = False
-    for w in ws:
-        lv = sl.leaves_of_rv(w.rv, w.bb)
+    for (wbb, st) in ws:
+        rv = st["rv"]
+        lv = sl.leaves_of_rv(rv, wbb)
         for l in lv:
             if l[0] == "binop" and l[1].startswith("Add"):
-                ops_here = [(None, w.rv["op"], w.rv["a"], w.rv["b"])] if w.rv["k"] == "binop" else binops_in(b, l[2])
+                ops_here = [(None, rv["op"], rv["a"], rv["b"])] if rv["k"] == "binop" else binops_in(b, l[2])
                 for (lhs, op, a, bo) in ops_here:
                     if not op.startswith("Add"):
                         continue
                     la, lb = sl.leaves_of_operand(a), sl.leaves_of_operand(bo)
                     for (x, y) in ((la, lb), (lb, la)):
-                        if all(z[0] == "param" and z[2] and z[2][-1] == size_f[0] for z in x) and x:
+                        if x and all(is_size_leaf(z) for z in x):
                             lens = [z for z in y if z[0] == "call" and z[1].endswith("::len")]
                             if lens and len(y) == 1:
                                 t = b.blocks[lens[0][2]]["term"]
                                 if data_leaf(sl.leaves_of_operand(t["args"][0])):
                                     okc = True
-    r.check(okc and len(ws) == 1, "count", b, "size += data.len() (once)",
-            "the size counter of %s is not advanced exactly once by data.len() (writes: %d)" % (b.path, len(ws)))
+    r.check(okc and len(ws) == 1, "count", b0, "size += data.len() (once)",
+            "the size counter of %s is not advanced exactly once by data.len() (writes: %d)" % (b0.path, len(ws)))
     # (b) hasher.update(data) exactly once, on every Ok path
     ups = [s for s in b.calls() if (s.path or "").startswith("blake3::Hasher::update")]
     okh = len(ups) == 1 and data_leaf(sl.leaves_of_operand(ups[0].term["args"][1])) and \
-        ctx.world.recv_field(b, ups[0].term["args"][0]) == ("F", txn, hasher_f[0])
-    r.check(okh, "hash", b, "hasher.update(data) (once)",
-            "%s does not feed exactly the data parameter to the transaction's hasher once (%d update call(s))" % (b.path, len(ups)))
+        ctx.world.recv_field(b, ups[0].term["args"][0]) == hasher_f[0]
+    r.check(okh, "hash", b0, "hasher.update(data) (once)",
+            "%s does not feed exactly the data parameter to the transaction's hasher once (%d update call(s))" % (b0.path, len(ups)))
     # (c) write_all(data) exactly once
-    wr = [e.site for e in ctx.fx.effects if e.site.body.path == b.path and e.kind == "FS_WRITE" and e.site.kind == "call"]
+    wkeys = set(e.site.key() for e in ctx.fx.effects if e.kind == "FS_WRITE" and e.site.kind == "call")
+    wr = [s for s in b.calls() if s.key() in wkeys]
     okw = len(wr) == 1 and data_leaf(sl.leaves_of_operand(wr[0].term["args"][1])) and \
         (wr[0].path or "").endswith("write_all")
-    r.check(okw, "file", b, "writer.write_all(data) (once)",
-            "%s does not write exactly the data parameter to the staging file once with write_all (%d write call(s))" % (b.path, len(wr)))
+    r.check(okw, "file", b0, "writer.write_all(data) (once)",
+            "%s does not write exactly the data parameter to the staging file once with write_all (%d write call(s))" % (b0.path, len(wr)))
     # all three on every path to Ok
-    rf = must.rf(b)
+    rf = ctx.rf(b)
     for bb, kind in rf.forwarded.items():
         if kind != "ok":
             continue
@@ -125,21 +146,23 @@ def one_datum(ctx, r, must, b, txn):
         for s in ups + wr:
             if not b.dominates(s.bb, bb):
                 doms = False
-        for w in ws:
-            if not b.dominates(w.bb, bb):
+        for (wbb, _st) in ws:
+            if not b.dominates(wbb, bb):
                 doms = False
         if wr:
             oks = rf.ok_edges_of(wr[0].bb)
             doms = doms and bool(oks) and cfgutil.edges_dominate(b, oks, bb)
-        r.check(doms, "all-three-before-ok", b, "count, hash and file write all precede the Ok return",
-                "%s can return Ok without having counted, hashed and written the data" % b.path)
+        r.check(doms, "all-three-before-ok", b0, "count, hash and file write all precede the Ok return",
+                "%s can return Ok without having counted, hashed and written the data" % b0.path)
 
 
 def one_hash(ctx, r, txn):
     prog = ctx.prog
-    fields = prog.adts[txn]["variants"][0]["fields"]
-    size_f = [f["name"] for f in fields if prog.ty_str(f["ty"]) == "u64"]
-    hasher_f = [f["name"] for f in fields if "blake3::Hasher" in prog.ty_str(f["ty"])]
+    from .c13 import txn_parts, _owned_structs
+    parts = txn_parts(ctx, txn)
+    size_f = [n[2] for n in parts["size"]]
+    size_owner = [n[1] for n in parts["size"]]
+    txn_family = set([txn]) | set(_owned_structs(prog, txn).keys())
     hash_ty = ctx.anchors.get("HASH")
     from .c06 import rooted_in_txn_field, leaf_root_adt
     done = set()
@@ -154,8 +177,9 @@ def one_hash(ctx, r, txn):
                   " (found instead: %s at %s)" % (others[0].kind, site_where(others[0].site)) if others else ""))
     for chain in chains:
         # the frame that both registers the intent and (directly or through callees) publishes
-        pub = ctx.deepest_frame(chain, lambda body: any(
-            "INTENT_ADD" in sem_set(ctx.may.site_events(s)) and prog.local_target(s) is not None for s in body.calls()))
+        from .c04 import intent_owner
+        ow = intent_owner(ctx, chain)
+        pub = ow[2] if ow is not None else chain[0]
         if pub.key() in done:
             continue
         done.add(pub.key())
@@ -194,6 +218,11 @@ def one_hash(ctx, r, txn):
                         if prog.ty_str(f["ty"]) == "u64":
                             res |= sl.leaves_up(a, path=(f["name"],), depth=5)
             return res
+        from ..prov import expand_down
+        _ha = hash_args
+
+        def hash_args(site):      # values that merely pass through a crate helper (the guard carries the hash it was
+            return expand_down(ctx.world, b, _ha(site))     # registered with) are traced to what the helper was given
         hp = hash_args(pub)
         fin = lambda lv: bool(lv) and all(l[0] == "call" and l[1] == "blake3::Hasher::finalize" for l in lv) and len(lv) == 1
         r.check(fin(hp), "publish-hash", b, "the published file is named after finalize() (%s)" % ", ".join(fmt_leaf(l) for l in hp),
@@ -204,9 +233,10 @@ def one_hash(ctx, r, txn):
                     "the hash registered for the index is the same finalize() result",
                     "the hash registered at %s (%s) is not the value that names the file (%s)" % (
                         site_where(reg), sorted(fmt_leaf(l) for l in hr), sorted(fmt_leaf(l) for l in hp)), site_where(reg))
-            sz = size_args(reg)
-            oks = bool(sz) and all(l[0] in ("param", "xparam") and leaf_root_adt(prog, b, l) == txn and
-                                   l[2] and l[2][-1] == size_f[0] for l in sz)
+            sz = expand_down(ctx.world, b, size_args(reg))
+            oks = bool(sz) and bool(size_f) and all(
+                l[0] in ("param", "xparam") and leaf_root_adt(prog, b, l) in txn_family and
+                l[2] and l[2][-1] == size_f[0] for l in sz)
             r.check(oks, "intent-size", b,
                     "the size registered is the transaction's byte counter",
                     "the size registered at %s has origins %s" % (site_where(reg), sorted(fmt_leaf(l) for l in sz)), site_where(reg))
